@@ -14,6 +14,7 @@ import (
 	"strconv"
 	"sync"
 	"sync/atomic"
+	"time"
 
 	"os"
 	"strings"
@@ -308,6 +309,12 @@ func init() {
 		k, _ := strconv.ParseInt(f[4], 10, 64)
 		fsCrashRun(c, n, node, parseOps(f[3]), k, true) // emits both images of this crash point
 	}
+	stExtraExec["gate17"] = func(c *Ctx, f []string) {
+		var node [32]byte
+		copy(node[:], unhx(f[2]))
+		n, _ := strconv.ParseUint(f[1], 10, 64)
+		stGate17(c, n, node, linParsePlan(f[3]))
+	}
 	stExtraExec["crash"] = func(c *Ctx, f []string) {
 		var node [32]byte
 		copy(node[:], unhx(f[2]))
@@ -337,5 +344,163 @@ func init() {
 			}
 		}
 		fsCrashGen(c)
+		gate17Gen(c)
+	}
+}
+
+// ---------------------------------------------------------------- a put while a prune waits for its WAL fsync
+//
+//	gate17 <capMB> <node> <plan> | ok <events> <final observation> <observation after close+reopen> <b-during-fsync 0|1>
+//
+// plan/events as in the lin lines: goroutine 0 = three fills, the over-capacity put X, and a last small put C;
+// goroutine 1 = one small put B.  pebble runs on an in-memory file system whose WAL files can be gated: after the
+// fills the gate is armed, X is issued (its prune commits with Sync: true and blocks in the fsync of the WAL), B is
+// issued from another goroutine and given 100 ms to return, then the fsync is released; after both have returned C
+// writes one more size record.  With Put holding its lock across the prune B simply waits; either way the history
+// must be linearizable and the size record must cover the bytes present - live and after a restart.
+type gateFS struct {
+	vfs.FS
+	armed   atomic.Bool
+	hit     chan struct{}
+	release chan struct{}
+}
+
+type gateFile struct {
+	vfs.File
+	fs *gateFS
+}
+
+func (g *gateFS) wrap(name string, f vfs.File, err error) (vfs.File, error) {
+	if err != nil || !strings.HasSuffix(name, ".log") {
+		return f, err
+	}
+	return &gateFile{File: f, fs: g}, nil
+}
+func (g *gateFS) Create(name string) (vfs.File, error) {
+	f, err := g.FS.Create(name)
+	return g.wrap(name, f, err)
+}
+func (g *gateFS) ReuseForWrite(o, n string) (vfs.File, error) {
+	f, err := g.FS.ReuseForWrite(o, n)
+	return g.wrap(n, f, err)
+}
+func (g *gateFile) gate() {
+	if g.fs.armed.CompareAndSwap(true, false) {
+		close(g.fs.hit)
+		<-g.fs.release
+	}
+}
+func (g *gateFile) Sync() error     { g.gate(); return g.File.Sync() }
+func (g *gateFile) SyncData() error { g.gate(); return g.File.SyncData() }
+func (g *gateFile) SyncTo(l int64) (bool, error) {
+	g.gate()
+	return g.File.SyncTo(l)
+}
+
+func stGate17(c *Ctx, capMB uint64, node [32]byte, plan [][]linPut) {
+	head := fmt.Sprintf("gate17 %d %s %s", capMB, hx(node[:]), linPlanString(plan))
+	var out string
+	p, msg := guard(func() {
+		if len(plan) != 2 || len(plan[0]) < 3 || len(plan[1]) != 1 {
+			panic("gate17: plan shape")
+		}
+		mem := vfs.NewMem()
+		gfs := &gateFS{FS: mem, hit: make(chan struct{}), release: make(chan struct{})}
+		s, err := memOpen(gfs, capMB, node)
+		if err != nil {
+			panic("open: " + err.Error())
+		}
+		var clock atomic.Int64
+		ev0 := make([]string, len(plan[0]))
+		var evB string
+		vals0 := make([][]byte, len(plan[0]))
+		for j, pt := range plan[0] {
+			vals0[j] = pt.val.Bytes()
+		}
+		valB := plan[1][0].val.Bytes()
+		put0 := func(j int) {
+			inv := clock.Add(1)
+			err := s.cs.Put(nil, plan[0][j].id, vals0[j])
+			resp := clock.Add(1)
+			ev0[j] = fmt.Sprintf("%d.%d.%s", inv, resp, putRes(err))
+		}
+		nx := len(plan[0]) - 2 // index of X; the last one is C
+		for j := 0; j < nx; j++ {
+			put0(j)
+		}
+		gfs.armed.Store(true)
+		aDone := make(chan struct{})
+		go func() { put0(nx); close(aDone) }()
+		select {
+		case <-gfs.hit:
+		case <-aDone: // the put did not sync at all
+		case <-time.After(3 * time.Second):
+		}
+		bDone := make(chan struct{})
+		go func() {
+			inv := clock.Add(1)
+			err := s.cs.Put(nil, plan[1][0].id, valB)
+			resp := clock.Add(1)
+			evB = fmt.Sprintf("%d.%d.%s", inv, resp, putRes(err))
+			close(bDone)
+		}()
+		during := 0
+		select {
+		case <-bDone:
+			during = 1
+		case <-time.After(100 * time.Millisecond):
+		}
+		gfs.armed.Store(false)
+		close(gfs.release)
+		<-aDone
+		<-bDone
+		put0(nx + 1)
+		waitPruneGoroutines()
+		var ids [][]byte
+		seen := map[string]bool{}
+		for t := range plan {
+			for _, pt := range plan[t] {
+				if !seen[string(pt.id)] {
+					seen[string(pt.id)] = true
+					ids = append(ids, pt.id)
+				}
+			}
+		}
+		fin := s.observe("-", ids)
+		s.close()
+		s2, err := memOpen(mem, capMB, node)
+		if err != nil {
+			panic("reopen: " + err.Error())
+		}
+		re := s2.observe("-", ids)
+		s2.close()
+		out = strings.Join(append(append([]string{}, ev0...), evB), ";") + " " + fin + " " + re + " " + strconv.Itoa(during)
+	})
+	if p {
+		c.Emit("%s | panic %s", head, msg)
+		return
+	}
+	c.Emit("%s | ok %s", head, out)
+}
+
+func gate17Gen(c *Ctx) {
+	r := c.Rng
+	rounds := 3
+	if c.Tier == "thorough" {
+		rounds = 40
+	}
+	var node [32]byte
+	key := func(x byte) []byte { k := make([]byte, 32); k[31] = x; return k }
+	for i := 0; i < rounds; i++ {
+		vid := uint64(9000 + 100*i)
+		big := func(n int) stVal { vid++; return stVal{long: true, vid: vid, n: n} }
+		small := func() stVal { return stVal{long: true, vid: vid + 50 + uint64(r.Intn(40)), n: 200 + r.Intn(3000)} }
+		plan := [][]linPut{
+			{{key(0x10), big(300000)}, {key(0x20), big(300000)}, {key(0x30), big(300000)},
+				{key(0x40), big(120000 + 1000*r.Intn(100))}, {key(0x02), small()}},
+			{{key(0x01), small()}},
+		}
+		c.Count("gate17_rounds")
+		stGate17(c, 1, node, plan)
 	}
 }
